@@ -127,9 +127,18 @@ pub fn render(p: &dyn Prop, tier: &str, seed: u64, a: &Agg, wall: f64) -> String
 /// same thread after different related calls, gives the same result (see `imp`: history priming)
 pub fn run_case(p: &dyn Prop, c: &Case, m: &mut crate::model::Model) -> Outcome {
     let _ = crate::imp::take_instability();
+    let _ = crate::cli::take_src_diff();
+    let _ = crate::imp::take_setup_failure();
     let mut o = p.run(c, m);
     if let Some(d) = crate::imp::take_instability() {
         if o.oracle_fail.is_none() { o.oracle_fail = Some(("same-call-same-result".into(), d)); }
+    }
+    if let Some((name, d)) = crate::imp::take_setup_failure() {
+        // (part of C19 — public-key derivation equals multiplication of the base point, for all scalars; elsewhere the case goes on with scalar * base point)
+        if p.id() == "C19" && o.oracle_fail.is_none() { o.oracle_fail = Some((name, d)); }
+    }
+    if let Some(d) = crate::cli::take_src_diff() {
+        if o.disagreement.is_none() { o.disagreement = Some(d); }
     }
     o
 }
